@@ -157,3 +157,8 @@ pub static CLOSE_N: AtomicUsize = AtomicUsize::new(0);
 pub static L1: RecLayer = RecLayer::new(1);
 pub static L2: RecLayer = RecLayer::new(2);
 pub static L3: RecLayer = RecLayer::new(3);
+
+/// lifetime extension for a harness-local value that outlives every use (the harness never returns before)
+pub unsafe fn extend<T>(r: &T) -> &'static T {
+    &*(r as *const T)
+}
